@@ -129,6 +129,32 @@ def check_ids(kind, ids, res):
                 return "width %d: read %s, wrote %s\n%s" % (width, str(got)[:80], ids[:12], txt[:200])
         return None
 
+    def multi():
+        """several cards of one kind in one file (with a comment and an unrelated card between them)"""
+        ids2 = [(i + 5000) if i < 90000000 else (i - 5000) for i in ids][::-1][: max(1, len(ids) - 1)][::-1]  # ids stay within 8 digits
+        sep = "$ comment\nPARAM,POST,-1\n"
+        f1, f2 = S(), S()
+        bulk.wtset(f1, 101, ids)
+        bulk.wtset(f2, 202, ids2)
+        # wtset writes no line terminator (pinned by the repository's tests): the caller separates statements
+        got = bulk.rdsets(io.StringIO(f1.getvalue() + "\n" + sep + f2.getvalue() + "\n"))
+        if got != {101: ids, 202: ids2}:
+            return "two SET cards in one file: read %s" % (str(got)[:120],)
+        f1, f2 = S(), S()
+        bulk.wtcsuper(f1, 77, ids)
+        bulk.wtcsuper(f2, 78, ids2)
+        d = bulk.rdcsupers(io.StringIO(f1.getvalue() + sep + f2.getvalue()))
+        if sorted(d.keys()) != [77, 78] or [int(x) for x in d[77][2:] if x != -1] != ids or [int(x) for x in d[78][2:] if x != -1] != ids2:
+            return "two CSUPER cards in one file: read %s" % (str(d)[:160],)
+        f1, f2 = S(), S()
+        bulk.wtspoints(f1, ids)
+        bulk.wtspoints(f2, ids2)
+        got = list(bulk.rdspoints(io.StringIO(f1.getvalue() + sep + f2.getvalue())))
+        if got != ids + ids2:
+            return "two SPOINT card groups in one file: read %s, wrote %s" % (got[:14], (ids + ids2)[:14])
+        return None
+
+    attempt("several cards in one file", multi)
     attempt("wtspoints/rdspoints", spoints)
     attempt("wtcsuper/rdcsupers", csuper)
     attempt("wtextrn/rdextrn", extrn)
